@@ -273,22 +273,42 @@ def _member_rows(name, clf, X):
     if name == "muse":
         return "rows", [np.asarray(clf.clf.predict_proba(clf._transform_words(X)))]
     X2 = from_nested_to_3d_numpy(X).squeeze(1)
+    # forests: every tree's OWN predict_proba on the forest's own feature transform, with the
+    # tree's OWN classes_ (a tree fitted on a bootstrap bag may know fewer classes than the forest)
     if name == "tsf":
         from sktime.series_as_features.base.estimators.interval_based._tsf import _transform
-        return "rows", [np.asarray(e.predict_proba(_transform(X2, iv)))
-                        for e, iv in zip(clf.estimators_, clf.intervals_)]
+        return "trees", [(list(e.classes_), np.asarray(e.predict_proba(_transform(X2, iv))))
+                         for e, iv in zip(clf.estimators_, clf.intervals_)]
     if name == "rise":
         from sktime.classification.interval_based import _rise
-        return "rows", [np.asarray(e.predict_proba(_rise._transform(X2, clf.intervals[i], clf.lags[i])))
-                        for i, e in enumerate(clf.estimators_)]
+        return "trees", [(list(e.classes_),
+                          np.asarray(e.predict_proba(_rise._transform(X2, clf.intervals[i], clf.lags[i]))))
+                         for i, e in enumerate(clf.estimators_)]
     if name == "stsf":
         from scipy import signal
         _, X_p = signal.periodogram(X2)
         X_d = np.diff(X2, 1)
-        return "rows", [np.asarray(clf._predict_proba_for_estimator(X2, X_p, X_d, clf.intervals_[i],
-                                                                    clf.estimators_[i]))
-                        for i in range(clf.n_estimators)]
+        out = []
+        for i in range(clf.n_estimators):
+            iv, e = clf.intervals_[i], clf.estimators_[i]
+            feats = np.concatenate((clf._transform(X2, iv[0]), clf._transform(X_p, iv[1]),
+                                    clf._transform(X_d, iv[2])), axis=1)
+            out.append((list(e.classes_), np.asarray(e.predict_proba(feats))))
+        return "trees", out
     raise AssertionError(name)
+
+
+def _stsf_method_rows(clf, X):
+    """SupervisedTimeSeriesForest._predict_proba_for_estimator per tree (what predict_proba sums)."""
+    import numpy as np
+    from scipy import signal
+    from sktime.utils.data_processing import from_nested_to_3d_numpy
+    X2 = from_nested_to_3d_numpy(X).squeeze(1)
+    _, X_p = signal.periodogram(X2)
+    X_d = np.diff(X2, 1)
+    return [np.asarray(clf._predict_proba_for_estimator(X2, X_p, X_d, clf.intervals_[i],
+                                                        clf.estimators_[i]))
+            for i in range(clf.n_estimators)]
 
 
 def _tsf_feats(clf, X, limit=2):
@@ -344,7 +364,17 @@ def _run_clf(case):
         clf = _make(name, case["rs"])
         _fit(clf, Xtr, _ycont(ytr, case["ycont"]))
         kind, members = _member_rows(name, clf, Xte)
-    proba = np.asarray(clf.predict_proba(Xte))
+    try:
+        proba = np.asarray(clf.predict_proba(Xte))
+    except ValueError as e:
+        if kind != "trees":
+            raise
+        import traceback
+        tb = traceback.extract_tb(e.__traceback__)[-1]
+        return {"err": "%s: %s (%s:%d)" % (type(e).__name__, str(e)[:100], tb.filename.split("/")[-1],
+                                           tb.lineno),
+                "where": "predict_proba of the fitted forest; classes_=%s, the trees' own classes_=%s" % (
+                    [_lab(v)[1] for v in clf.classes_], [[_lab(v)[1] for v in tc] for tc, _ in members])}
     pred = clf.predict(Xte)
     score = clf.score(Xte, _ycont(yte, case["ycont"]))
     out = {"ytrain": [_lab(v) for v in ytr], "ytest": [_lab(v) for v in yte],
@@ -355,6 +385,13 @@ def _run_clf(case):
            "tie": "near" if name == "muse" else "any"}
     if kind == "votes":
         out["members"] = [[_ratio(w), [_lab(v) for v in votes]] for w, votes in members]
+    elif kind == "trees":
+        out["members"] = [[[_lab(v) for v in tc], [[_ratio(v) for v in row] for row in np.atleast_2d(m)]]
+                          for tc, m in members]
+        out["member_shapes"] = [list(np.shape(m)) for _, m in members]
+        if name == "stsf":
+            out["method_rows"] = [[[_ratio(v) for v in row] for row in np.atleast_2d(m)]
+                                  for m in _stsf_method_rows(clf, Xte)]
     else:
         out["members"] = [[[_ratio(v) for v in row] for row in np.atleast_2d(m)] for m in members]
         out["member_shapes"] = [list(np.shape(m)) for m in members]
@@ -497,6 +534,30 @@ def _clf_oracle(case, out):
             if any(abs(a - b) > 1e-9 for a, b in zip(exp, P[i])):
                 return ("proba-not-normalised-votes: instance %d got %s, members' votes %s with "
                         "weights %s give %s" % (i, P[i], [v[i] for _, v in out["members"]], ws, exp))
+    elif out["mkind"] == "trees":
+        # each tree: one column per class of ITS OWN classes_ (sorted, a subset of the forest's);
+        # the forest's column for class c is the mean of the trees' own probabilities for c
+        placed = []
+        for t, ((tc, rows), shp) in enumerate(zip(out["members"], out["member_shapes"])):
+            if shp != [n, len(tc)]:
+                return "tree-proba-shape: tree %d returned %s for %d instances and %d classes" % (
+                    t, shp, n, len(tc))
+            if any(c not in classes for c in tc) or len({tuple(c) for c in tc}) != len(tc):
+                return "tree-classes-not-among-classes_: tree %d has %s, forest has %s" % (t, tc, classes)
+            placed.append([[(_f(rows[i][tc.index(c)]) if c in tc else 0.0) for c in classes]
+                           for i in range(n)])
+        for i in range(n):
+            exp = [sum(pl[i][j] for pl in placed) / len(placed) for j in range(len(classes))]
+            if any(abs(a - b) > 1e-9 for a, b in zip(exp, P[i])):
+                return ("proba-not-mean-of-trees-placed-by-their-classes: instance %d got %s, the "
+                        "trees (classes %s) give %s" % (i, P[i], [[c[1] for c in tc] for tc, _ in
+                                                                  out["members"]], exp))
+        for t, m in enumerate(out.get("method_rows", [])):
+            got = [[_f(v) for v in row] for row in m]
+            if got != placed[t]:
+                return ("tree-row-not-placed-by-tree-classes: _predict_proba_for_estimator of tree %d "
+                        "(classes %s) returned %s, expected %s" % (
+                            t, [c[1] for c in out["members"][t][0]], got[:1], placed[t][:1]))
     else:
         if any(s != [n, len(want)] for s in out["member_shapes"]):
             return "member-proba-shape: %s" % (out["member_shapes"],)
@@ -544,7 +605,7 @@ def _feat_oracle(x, ivs, row):
 def oracle(case, out):
     k = case["kind"]
     if "err" in out:
-        return "unexpected-error: %s" % out["err"]
+        return "unexpected-error: %s%s" % (out["err"], " [%s]" % out["where"] if "where" in out else "")
     if "fit_refused" in out:
         return None
     if k in ("clf", "basepredict"):
@@ -681,6 +742,8 @@ def _has_nan(out):
         return True
     if out["mkind"] == "votes":
         return any(w is None for w, _ in out["members"])
+    if out["mkind"] == "trees":
+        return any(bad(m) for _, m in out["members"])
     return any(bad(m) for m in out["members"])
 
 
@@ -693,6 +756,9 @@ def _cclf(out):
         if out["mkind"] == "votes":
             mem = "(IVotes %s)" % clist(["(%s, %s)" % (_clab(votes[i]), _cq(w))
                                          for w, votes in out["members"] if i < len(votes)])
+        elif out["mkind"] == "trees":
+            mem = "(ITrees %s)" % clist(["(%s, %s)" % (clist([_clab(c) for c in tc]), _cqs(m[i]))
+                                         for tc, m in out["members"] if i < len(m)])
         else:
             mem = "(IRows %s)" % clist([_cqs(m[i]) for m in out["members"] if i < len(m)])
         insts.append("(mkinst %s %s %s)" % (mem, _cqs(out["proba"][i]), _clab(out["pred"][i])))
